@@ -11,7 +11,7 @@ import re
 
 import numpy as np
 
-from . import common, gencalls, implrun
+from . import common, gencalls, implrun, irser
 from .c08 import clone
 
 ALLOWED_STMT = (ast.Import, ast.ImportFrom, ast.Assign, ast.Expr, ast.Assert, ast.FunctionDef, ast.Return, ast.AugAssign)
@@ -70,6 +70,11 @@ def _work(item):
             continue
         text = r[1]
         bad = grammar_violations(text)
+        if not bad:
+            try:
+                irser.ser_code(text)          # the decoder of Model/Ir.v's straight-line language (Props/C17.v speaks about it)
+            except irser.NotStraightLine as e:
+                bad = ["not in the modelled subset: " + str(e)]
         if bad:
             out.append(({"kind": "not_straight_line", "backend": b, "family": c.family, "nodes": ",".join(sorted(set(bad)))},
                         {"call": c.record(), "code": text}))
